@@ -681,3 +681,26 @@ Definition model54_all : list bool :=
     model54 "g;x=1/../y" (Some ("a", "/b/c/y")); model54 "g?y/./x" (Some ("a", "/b/c/g?y/./x"));
     model54 "g?y/../x" (Some ("a", "/b/c/g?y/../x")); model54 "g#s/./x" (Some ("a", "/b/c/g"));
     model54 "g#s/../x" (Some ("a", "/b/c/g")); model54 "http:g" None ].
+
+(* ------------------------------------------------------------------ statements as exported *)
+
+Lemma model_rds_properties p :
+  Url.remove_dot_segments (Url.remove_dot_segments p) = Url.remove_dot_segments p /\
+  (Url.remove_dot_segments p = [] \/ exists t, Url.remove_dot_segments p = 47 :: t) /\
+  (Url.remove_dot_segments p <> [] ->
+   Forall (fun s => s <> [46] /\ s <> [46; 46]) (path_segments (Url.remove_dot_segments p))).
+Proof.
+  split; [apply model_rds_idempotent|]. split; [apply model_rds_abs_or_empty|].
+  apply model_rds_segments.
+Qed.
+
+Lemma rfc_rds_properties p :
+  p = [] \/ (exists t, p = 47 :: t) ->
+  rfc_remove_dot_segments (rfc_remove_dot_segments p) = rfc_remove_dot_segments p /\
+  (rfc_remove_dot_segments p <> [] ->
+   Forall (fun s => s <> [46] /\ s <> [46; 46]) (path_segments (rfc_remove_dot_segments p))).
+Proof. intros H. split; [apply rfc_rds_idempotent; exact H|apply rfc_rds_no_dots; exact H]. Qed.
+
+Lemma merge_agree t rel :
+  rfc_merge true (47 :: t) rel = Url.merge (47 :: t) rel /\ rfc_merge true [] rel = Url.merge [47] rel.
+Proof. split; [apply merge_agree_abs|apply merge_agree_nil]. Qed.
